@@ -92,51 +92,73 @@ def on_done_registered_before_submission(ctx):
            'the tracked coordinator must be untracked when (and only when) it is done')
 
 
+def _isolated(call):
+    """call sits in a try body whose handler catches Exception/BaseException and does not re-raise"""
+    for t, field in q.enclosing_trys(call):
+        if field == 'body':
+            for h in t.handlers:
+                if h.type is not None and norm(h.type) in ('Exception', 'BaseException') and not any(isinstance(n, ast.Raise) for n in ast.walk(h)):
+                    return True
+    return False
+
+
+def _invokes_isolated(ctx, f, loop, var, depth=0):
+    """Every iteration invokes ``var`` exactly at one site, isolated by try/except Exception -
+    directly, or through a package helper that does so with the parameter it receives."""
+    sites = []
+    for c in ast.walk(loop):
+        if not isinstance(c, ast.Call):
+            continue
+        if isinstance(c.func, ast.Name) and c.func.id == var:
+            sites.append(_isolated(c))
+        elif any(isinstance(a, ast.Name) and a.id == var for a in c.args) and depth < 3:
+            r = ctx.r.resolve(f, c)
+            if r.kind == 'package' and len(r.targets) == 1:
+                t = r.targets[0]
+                b = q.bind_args(ctx, c, f, t) or {}
+                pn = [k for k, v in b.items() if isinstance(v, ast.Name) and v.id == var]
+                if pn:
+                    sites.append(_invokes_isolated(ctx, t, t.node, pn[0], depth + 1))
+    return len(sites) == 1 and sites[0]
+
+
 @rule('C08.c', ['C08', 'C05'], floor=3)
 def run_once_isolated(ctx):
-    """_run_done_callbacks / _run_failure_cleanups run the list and rebind it to []
-    inside one lock region (exactly once even if done is announced twice);
-    _run_callback isolates each callback in try/except Exception without re-raise."""
+    """_run_done_callbacks / _run_failure_cleanups (fully expanded view: helpers inlined) loop
+    over the whole list, invoke each callback inside try/except Exception without re-raise,
+    never leave the loop early, and rebind the list to [] after the loop inside the same
+    lock region (exactly once even if done is announced twice); registration appends under
+    the same lock."""
+    x = ctx.expanded()
+    from .c17 import _lock_region
     for name, lock, attr in (('_run_done_callbacks', 'self._done_callbacks_lock', '_done_callbacks'),
                              ('_run_failure_cleanups', 'self._failure_cleanups_lock', '_failure_cleanups')):
-        f = ctx.func(f'{COORD}.{name}')
-        runs = [c for c in own_calls(f.node) if (dotted(c.func) or '').endswith('_run_callbacks')]
+        f = x.func(f'{COORD}.{name}')
+        loops = [n for n in own_nodes(f.node) if isinstance(n, ast.For) and attr.lstrip('_') in norm(n.iter) and norm(n.iter).startswith('self.')]
         clears = [n for n in own_nodes(f.node) if isinstance(n, ast.Assign) and dotted(n.targets[0]) == f'self.{attr}'
                   and isinstance(n.value, ast.List) and not n.value.elts]
-        ok = bool(runs and clears)
-        for c in runs:
-            ok = ok and lock in q.locks_held(c) and c.args and attr.lstrip('_') in norm(c.args[0])
-        for n in clears:
-            ok = ok and lock in q.locks_held(n)
+        ok = len(loops) == 1 and bool(clears)
+        why = 'the callbacks must be run and cleared atomically, otherwise two announcers run them twice (or never)'
         if ok:
-            from .c17 import _lock_region
-            ok = _lock_region(runs[0]) is _lock_region(clears[0])
-            g = ctx.cfg(f)
-            ok = ok and g.all_dominate([n for c in runs for n in g.nodes_of(c)], [n for x in clears for n in g.nodes_of(x)], g.NORMAL)
-        ctx.ob(f, f'run {attr} then rebind to [] under {lock}', ok,
-               'the callbacks must be run and cleared atomically, otherwise two announcers run them twice (or never)')
+            lp = loops[0]
+            ok = lock in q.locks_held(lp) and all(lock in q.locks_held(n) and _lock_region(n) is _lock_region(lp) for n in clears)
+            g = x.cfg(f)
+            ok = ok and g.all_dominate(g.nodes_of(lp), [n for c in clears for n in g.nodes_of(c)], g.NORMAL)
+        ctx.ob(f.qualname, f'run {attr} then rebind to [] under {lock}', ok, why, node=f.node)
+        if len(loops) == 1:
+            lp = loops[0]
+            early = [n for n in ast.walk(lp) if isinstance(n, (ast.Break, ast.Return, ast.Continue))]
+            ctx.ob(f.qualname, f'every element of {attr} is run: no break/return/continue in the loop', not early and isinstance(lp.target, ast.Name),
+                   'every registered callback runs, in registration order', node=lp)
+            if isinstance(lp.target, ast.Name):
+                ctx.ob(f.qualname, f'each {attr} element is invoked once inside try/except Exception (no re-raise)',
+                       _invokes_isolated(x, f, lp, lp.target.id),
+                       'an exception in one callback must not prevent the others (or the rest of announce_done)', node=lp)
         # registration side uses the same lock
         reg = ctx.func(f'{COORD}.add_done_callback' if attr == '_done_callbacks' else f'{COORD}.add_failure_cleanup')
         apps = [c for c in own_calls(reg.node) if (dotted(c.func) or '') == f'self.{attr}.append']
         ctx.ob(reg, f'self.{attr}.append under {lock}', bool(apps) and all(lock in q.locks_held(c) for c in apps),
                'registration must be serialised with the run-and-clear')
-    f = ctx.func(f'{COORD}._run_callback')
-    opens = [c for c, r in q.calls_in(ctx, f) if r.kind == 'open']
-    ctx.need(opens, '_run_callback no longer invokes the callback')
-    for c in opens:
-        fr = q.enclosing_trys(c)
-        ok = False
-        for t, field in fr:
-            if field == 'body':
-                for h in t.handlers:
-                    if h.type is not None and norm(h.type) in ('Exception', 'BaseException') and not any(isinstance(n, ast.Raise) for n in ast.walk(h)):
-                        ok = True
-        ctx.ob(f, c, ok, 'an exception in one callback must not prevent the others (or the rest of announce_done)')
-    f = ctx.func(f'{COORD}._run_callbacks')
-    loops = [n for n in own_nodes(f.node) if isinstance(n, ast.For)]
-    ok = len(loops) == 1 and norm(loops[0].iter) == f.params[1] and any((dotted(c.func) or '').endswith('_run_callback') for c in own_calls(f.node)) \
-        and not any(isinstance(n, (ast.Break, ast.Return)) for n in own_nodes(f.node))
-    ctx.ob(f, 'for callback in callbacks: self._run_callback(callback)', ok, 'every registered callback runs, in registration order')
 
 
 @rule('C08.d', ['C08', 'C05', 'C04'], floor=3)
@@ -153,15 +175,9 @@ def who_may_announce(ctx):
         detail = 'only the final task, the submission error path and cancel-before-start may announce done'
         if cf.qualname == f'{COORD}.cancel':
             gs = q.guards(c)
-            names = set()
-            for e, pol in gs:
-                names |= q.names_in(e)
-            ok = ok and bool(gs) and any(
-                any(isinstance(v, ast.Constant) and v.value is True and q.guards_imply(q.guards(st), "self._status == 'not-started'")
-                    for st, v in q.local_defs(cf, nm) if isinstance(v, ast.AST)) and
-                all((isinstance(v, ast.Constant) and v.value is False) or q.guards_imply(q.guards(st), "self._status == 'not-started'")
-                    for st, v in q.local_defs(cf, nm) if isinstance(v, ast.AST))
-                for nm in names) or (ok and q.guards_imply(gs, "self._status == 'not-started'"))
+            target = "self._status == 'not-started'"
+            ok = ok and bool(gs) and (q.guards_imply(gs, target) or any(
+                pol and isinstance(e, ast.Name) and q.flag_true_implies(cf, e.id, target) for e, pol in gs))
             detail = 'cancel may announce done only if the transfer had not started (otherwise the final task / error path announces after the work)'
         elif cf.qualname == 'tasks.SubmissionTask._main':
             ok = ok and q.in_handler(c) is not None
